@@ -417,7 +417,7 @@ def do_check(prop, tier, seed, extra):
                 gate_fail = True
                 continue
             # regenerate the plan of the killing seed
-            cmd = [exe, "gen", "--scenario", b["scenario"], "--seed", str(d["seed"])]
+            cmd = [exe, "gen", "--scenario", b["scenario"], "--seed", str(d["seed"]), "--opt", "run_index=%d" % d["index"]]
             for kk, vv in sorted(b.get("opts", {}).items()):
                 cmd += ["--opt", "%s=%s" % (kk, vv)]
             plan = subprocess.run(cmd, stdout=subprocess.PIPE).stdout.decode()
